@@ -2,10 +2,12 @@
 from __future__ import annotations
 
 import ast
+
+from ..pattern import pmatch, pfind, pall
 import re
 import re._parser as sre_parse  # regex syntax trees (python >= 3.11)
 
-from ..core import (AnalysisError, call_name, const, dotted, is_const, kwarg, local_defs, norm, origin,
+from ..core import (alpha, AnalysisError, call_name, const, dotted, is_const, kwarg, local_defs, norm, origin,
                     parent_map, walk_local)
 from ..facts import assigned_subscripts, default_of, guards_of, returns_of, enclosing_loops
 from ..rules import walk as W
@@ -57,10 +59,13 @@ def bipartite(rep):
     r = rep.f(CV, "bipartite_to_hypergraph")
     sp = rep.f(CV, "hypergraph_to_bipartite.<locals>.make_sp_attrs")
     rx = rep.f(CV, "hypergraph_to_bipartite.<locals>.make_rxn_attrs")
+    G = r.params[0]
     sp_keys, rx_keys = _dict_keys_written(sp.node), _dict_keys_written(rx.node)
+    # the arc attribute dict is the one splatted into add_edge
+    arc_dicts = {norm(k.value) for c in walk_local(w.node) if isinstance(c, ast.Call) and call_name(c) == "add_edge" for k in c.keywords if k.arg is None}
     edge_keys = set()
     for t, v, st in assigned_subscripts(w.node):
-        if norm(t.value) == "attrs" and isinstance(t.slice, ast.Constant):
+        if norm(t.value) in arc_dicts and isinstance(t.slice, ast.Constant):
             edge_keys.add(t.slice.value)
     rep.extra["bipartite_writer_keys"] = {"species": sorted(sp_keys), "reaction": sorted(rx_keys), "arc": sorted(edge_keys)}
     for param, where, keys in (("species_label_attr", "species node", sp_keys), ("reaction_edge_id_attr", "reaction node", rx_keys),
@@ -76,72 +81,100 @@ def bipartite(rep):
     # tags
     kinds_w = {v.value for d in (sp.node, rx.node) for n in ast.walk(d) if isinstance(n, ast.Dict)
                for k, v in zip(n.keys, n.values) if isinstance(k, ast.Constant) and k.value == "kind" and isinstance(v, ast.Constant)}
+    rdefs = local_defs(r.node)
+    kind_vars = {nm for nm, ds in rdefs.items() for d_ in ds if d_.kind == "assign" and pmatch("$d.get('kind')", d_.value) is not None}
     kinds_r = set()
     for n in walk_local(r.node):
-        if isinstance(n, ast.Compare) and norm(n.left) == "kind" and isinstance(n.comparators[0], ast.Constant):
+        if isinstance(n, ast.Compare) and (norm(n.left) in kind_vars or pmatch("$d.get('kind')", n.left) is not None) and isinstance(n.comparators[0], ast.Constant):
             kinds_r.add(n.comparators[0].value)
     rep.ob("O16.1", "R3b", r, kinds_w == kinds_r == {"species", "reaction"}, f"writer {sorted(kinds_w)} / reader {sorted(kinds_r)}",
            "node kinds are tagged and recognised with the same constants")
     # what the label/edge_id slots hold on the writer side
     lab = [v for n in ast.walk(rx.node) if isinstance(n, ast.Dict) for k, v in zip(n.keys, n.values) if isinstance(k, ast.Constant) and k.value == "label"]
-    rep.ob("O16.1", "R3b", rx, bool(lab) and norm(lab[0]) == "rule", lab[0] if lab else "label", "a reaction node's label is the reaction's rule")
+    rep.ob("O16.1", "R3b", rx, bool(lab) and norm(lab[0]) == rx.params[1], lab[0] if lab else "label", "a reaction node's label is the reaction's rule")
     eidw = [(t, v, st) for t, v, st in assigned_subscripts(rx.node) if is_const(t.slice, "edge_id")]
     pm = parent_map(rx.node)
-    ok = bool(eidw) and norm(eidw[0][1]) == "eid" and [norm(t) for t, s in guards_of(pm, eidw[0][2], rx.node) if s] == ["include_edge_id_attr"]
-    rep.ob("O16.1", "R3b", rx, ok, eidw[0][2] if eidw else "edge_id", "the reaction id is exported under 'edge_id' exactly when include_edge_id_attr is set")
+    ok = bool(eidw) and norm(eidw[0][1]) == rx.params[0] and [norm(t) for t, s in guards_of(pm, eidw[0][2], rx.node) if s] == ["include_edge_id_attr"]
+    rep.ob("O16.1", "R3b", rx, ok, alpha(eidw[0][2], rx.node) if eidw else "edge_id", "the reaction id is exported under 'edge_id' exactly when include_edge_id_attr is set")
     # orientation
     table = W.writer_table(rep.repo)
-    dirs = {}
-    rdefs = local_defs(r.node)
-    for lp in [l for l in walk_local(r.node) if isinstance(l, ast.For) and isinstance(l.iter, ast.Call)
-               and call_name(l.iter) in ("in_edges", "out_edges") and norm(l.iter.args[0]) == "rnode"]:
-        d = "in" if call_name(lp.iter) == "in_edges" else "out"
-        for t, v, st in assigned_subscripts(lp):
-            dirs[norm(t.value)] = (d, lp)
-        # species end
-        tg = [norm(e) for e in lp.target.elts]
-        sp_end = tg[0] if d == "in" else tg[1]
-        lab_src = [n for n in walk_local(lp) if isinstance(n, ast.Assign) and norm(n.targets[0]) == "s_label"]
-        ok = bool(lab_src) and f"G.nodes[{sp_end}]" in norm(lab_src[0].value) and sp_end != "_"
-        rep.ob("O16.1", "R3b", r, ok, lab_src[0] if lab_src else lp, f"the species label is read from the species end of the {d}-arc", node=lp)
-        sto = [n for n in walk_local(lp) if isinstance(n, ast.Assign) and norm(n.targets[0]) == "sto"]
-        ok = bool(sto) and norm(sto[0].value).replace(" ", "") == "int(ed.get(stoich_attr,1))"
-        rep.ob("O16.1", "R3b", r, ok, sto[0] if sto else lp, "the coefficient is read from the arc's stoichiometry key (default 1)", node=lp)
-    ok = dirs.get("reactants_map", ("?",))[0] == table["reactant"]["dir"] and dirs.get("products_map", ("?",))[0] == table["product"]["dir"]
-    rep.ob("O16.1", "R3b", r, ok, {k: v[0] for k, v in dirs.items()}, "reactants are rebuilt from the arcs the writer used for reactants (in-arcs), products from out-arcs",
-           {"writer": {k: v["dir"] for k, v in table.items()}})
-    adds = [c for c in walk_local(r.node) if isinstance(c, ast.Call) and norm(c.func) == "H.add_rxn"]
+    adds = [c for c in walk_local(r.node) if isinstance(c, ast.Call) and call_name(c) == "add_rxn"]
     rep.need("R3b", len(adds), 1, "H.add_rxn in bipartite_to_hypergraph")
     c = adds[0]
-    ok = [norm(a) for a in c.args[:2]] == ["reactants_map", "products_map"] and norm(kwarg(c, "rule") or ast.Constant(None)) == "rule" \
-        and norm(kwarg(c, "edge_id") or ast.Constant(None)) == "str(eid)"
-    rep.ob("O16.1", "SRC", r, ok, c, "the reaction is re-added with its reactants, products, rule and id", node=c)
-    eid_src = [d for d in rdefs.get("eid", []) if d.kind == "assign"]
-    ok = bool(eid_src) and norm(eid_src[0].value) == "node_data.get(reaction_edge_id_attr)"
-    rep.ob("O16.1", "SRC", r, ok, eid_src[0].stmt if eid_src else "eid", "the id is taken from the reaction node's id attribute")
-    rule_src = [d for d in rdefs.get("rule", []) if d.kind == "assign"]
-    ok = bool(rule_src) and norm(rule_src[0].value) == "node_data.get(reaction_label_attr, default_rule)"
-    rep.ob("O16.1", "SRC", r, ok, rule_src[0].stmt if rule_src else "rule", "the rule is taken from the reaction node's label")
+    HV = norm(c.func.value)
+    rep.ob("O16.1", "SRC", r, norm(origin(rdefs, c.func.value)) == "CRNHyperGraph()" and bool(returns_of(r.node)) and norm(returns_of(r.node)[-1].value) == HV, c.func,
+           "the reader fills and returns a fresh network")
+    RMAP, PMAP = (norm(a) for a in c.args[:2]) if len(c.args) >= 2 else (None, None)
+    rl = enclosing_loops(parent_map(r.node), c, r.node)
+    rnode = norm(rl[0].target) if rl else None
+    dirs = {}
+    for lp in [l for l in walk_local(r.node) if isinstance(l, ast.For) and isinstance(l.iter, ast.Call)
+               and call_name(l.iter) in ("in_edges", "out_edges") and l.iter.args and norm(l.iter.args[0]) == rnode]:
+        d = "in" if call_name(lp.iter) == "in_edges" else "out"
+        tg = [norm(e) for e in lp.target.elts]
+        sp_end = tg[0] if d == "in" else tg[1]
+        ed = tg[2] if len(tg) > 2 else None
+        acc = [(t, v, st) for t, v, st in assigned_subscripts(lp)]
+        ok_lab = ok_sto = False
+        for t, v, st in acc:
+            m = pmatch("$m[$k] = $m.get($k, 0) + $c", st)
+            if not m:
+                continue
+            dirs[m["m"]] = (d, lp)
+            ksrc = origin(local_defs(lp), ast.Name(id=m["k"], ctx=ast.Load()))
+            ok_lab = sp_end != "_" and pmatch(f"{G}.nodes[{sp_end}].get(species_label_attr, str({sp_end}))", ksrc) is not None
+            csrc = origin(local_defs(lp), ast.Name(id=m["c"], ctx=ast.Load()))
+            ok_sto = ed is not None and pmatch(f"int({ed}.get(stoich_attr, 1))", csrc) is not None
+        rep.ob("O16.1", "R3b", r, ok_lab, f"species label <- {d}-arc", f"the species label is read from the species end of the {d}-arc", node=lp)
+        rep.ob("O16.1", "R3b", r, ok_sto, f"coefficient <- {d}-arc data", "the coefficient is read from the arc's stoichiometry key (default 1)", node=lp)
+    ok = RMAP is not None and dirs.get(RMAP, ("?",))[0] == table["reactant"]["dir"] and dirs.get(PMAP, ("?",))[0] == table["product"]["dir"]
+    rep.ob("O16.1", "R3b", r, ok, {"reactants": dirs.get(RMAP, ("?",))[0], "products": dirs.get(PMAP, ("?",))[0]},
+           "reactants are rebuilt from the arcs the writer used for reactants (in-arcs), products from out-arcs",
+           {"writer": {k: v["dir"] for k, v in table.items()}})
+    rk, ik = kwarg(c, "rule"), kwarg(c, "edge_id")
+    im = pmatch("str($e)", ik)
+    ok = RMAP is not None and isinstance(rk, ast.Name) and im is not None
+    rep.ob("O16.1", "SRC", r, ok, alpha(c, r.node), "the reaction is re-added with its reactants, products, rule and id", node=c)
+    EID = im["e"] if im else None
+    eid_src = [d for d in rdefs.get(EID or "", []) if d.kind == "assign"]
+    nd = None
+    for d_ in eid_src:
+        m = pmatch("$nd.get(reaction_edge_id_attr)", d_.value)
+        if m:
+            nd = m["nd"]
+    ok = nd is not None and pmatch(f"{G}.nodes[{rnode}]", origin(rdefs, ast.Name(id=nd, ctx=ast.Load()))) is not None
+    rep.ob("O16.1", "SRC", r, ok, "eid = <reaction node data>.get(reaction_edge_id_attr)", "the id is taken from the reaction node's id attribute")
+    rule_src = [d for d in rdefs.get(rk.id if isinstance(rk, ast.Name) else "", []) if d.kind == "assign"]
+    ok = nd is not None and bool(rule_src) and any(pmatch(f"{nd}.get(reaction_label_attr, default_rule)", d_.value) is not None for d_ in rule_src)
+    rep.ob("O16.1", "SRC", r, ok, "rule = <reaction node data>.get(reaction_label_attr, default_rule)", "the rule is taken from the reaction node's label")
     # non-invertible fallback id
     hs = [n for n in walk_local(r.node) if isinstance(n, ast.Call) and isinstance(n.func, ast.Name) and n.func.id == "hash"]
     pmr = parent_map(r.node)
     for h in hs:
         gs = [norm(t) for t, s in guards_of(pmr, h, r.node) if s]
-        rep.ob("O16.1", "R4", r, "eid is None" in gs, f"hash(...) under {gs}",
+        rep.ob("O16.1", "R4", r, f"{EID} is None" in gs, "hash(...) under `eid is None`" if f"{EID} is None" in gs else f"hash(...) under {gs}",
                "the hash()-based synthetic id is used only when the view carries no edge_id (export without include_edge_id_attr does not claim id round-trip)", node=h)
     # mol labels
     molw = [(t, v, st) for t, v, st in assigned_subscripts(sp.node) if is_const(t.slice, "mol")]
-    rep.ob("O16.1", "R3b", sp, bool(molw) and norm(molw[0][1]) == "species_to_mol[s]", molw[0][2] if molw else "mol", "species nodes carry the species' own molecule label")
-    molr = [(t, v, st) for t, v, st in assigned_subscripts(r.node) if norm(t.value) == "H.species_to_mol"]
-    ok = bool(molr) and norm(molr[0][1]) == "ndata[mol_attr]" and norm(molr[0][0].slice) == "s_label"
-    rep.ob("O16.1", "R3b", r, ok, molr[0][2] if molr else "species_to_mol", "molecule labels are restored under the species label")
+    rep.ob("O16.1", "R3b", sp, bool(molw) and any(norm(molw[0][1]) == f"{b_['m']}[{sp.params[0]}]" for _, b_ in pfind(f"$m = {w.params[0]}.species_to_mol", w.node, into_nested=False)), alpha(molw[0][2], sp.node) if molw else "mol", "species nodes carry the species' own molecule label")
+    molr = [(t, v, st) for t, v, st in assigned_subscripts(r.node) if norm(t.value) == f"{HV}.species_to_mol"]
+    ok = False
+    if molr:
+        m = pmatch(f"{HV}.species_to_mol[$k] = $nd[mol_attr]", molr[0][2])
+        if m:
+            ml = enclosing_loops(pmr, molr[0][2], r.node)
+            ksrc = origin(local_defs(ml[0]) if ml else rdefs, ast.Name(id=m["k"], ctx=ast.Load()))
+            ok = bool(ml) and pmatch(f"{m['nd']}.get(species_label_attr, str({norm(ml[0].target)}))", ksrc) is not None \
+                and pmatch(f"{G}.nodes[{norm(ml[0].target)}]", origin(local_defs(ml[0]), ast.Name(id=m["nd"], ctx=ast.Load()))) is not None
+    rep.ob("O16.1", "R3b", r, ok, alpha(molr[0][2], r.node) if molr else "species_to_mol", "molecule labels are restored under the species label")
     # writer: coefficient and one arc per (species, reaction, side)
+    Hw = w.params[0]
     for side, lp in [(s_, l) for l in walk_local(w.node) if isinstance(l, ast.For) for s_ in ("reactants", "products") if f".{s_}.items()" in norm(l.iter)]:
         sto = [(t, v, st) for t, v, st in assigned_subscripts(lp) if is_const(t.slice, "stoich")]
         c_var = norm(lp.target.elts[1])
         ok = bool(sto) and norm(sto[0][1]) == f"int({c_var})"
-        rep.ob("O16.1", "R3b", w, ok, sto[0][2] if sto else lp, f"{side}: the arc carries the side's own coefficient", node=lp)
-    items = [l for l in walk_local(w.node) if isinstance(l, ast.For) and "H.edges.items()" in norm(l.iter)]
+        rep.ob("O16.1", "R3b", w, ok, alpha(sto[0][2], w.node) if sto else lp, f"{side}: the arc carries the side's own coefficient", node=lp)
+    items = [l for l in walk_local(w.node) if isinstance(l, ast.For) and f"{Hw}.edges.items()" in norm(l.iter)]
     rep.ob("O16.1", "R3b", w, len(items) == 1 and not [n for n in walk_local(items[0]) if isinstance(n, (ast.Continue, ast.Break))],
            items[0].iter if items else "for", "every stored reaction is exported")
 
@@ -153,9 +186,11 @@ SG_KEYS = {"via", "rules", "stoich_r", "stoich_p", "stoich_r_map", "stoich_p_map
 def species_graph(rep):
     w = rep.f(CV, "hypergraph_to_species_graph")
     r = rep.f(CV, "species_graph_to_hypergraph")
-    adds = [c for c in walk_local(w.node) if isinstance(c, ast.Call) and norm(c.func) == "G.add_edge"]
+    Hw = w.params[0]
+    adds = [c for c in walk_local(w.node) if isinstance(c, ast.Call) and call_name(c) == "add_edge"]
     rep.need("R3b", len(adds), 1, "G.add_edge in hypergraph_to_species_graph")
     c = adds[0]
+    GW = norm(c.func.value)
     kws = {k.arg: norm(k.value) for k in c.keywords}
     rep.ob("O16.2", "R3b", w, set(kws) == SG_KEYS, sorted(kws), "a new species arc carries via, rules, legacy and per-reaction stoichiometry")
     lp_r = [l for l in walk_local(w.node) if isinstance(l, ast.For) and ".reactants.items()" in norm(l.iter)]
@@ -163,58 +198,94 @@ def species_graph(rep):
     rep.need("R3b", len(lp_r) + len(lp_p), 2, "reactant x product loops")
     rv, rc = [norm(e) for e in lp_r[0].target.elts]
     pv, pc = [norm(e) for e in lp_p[0].target.elts]
+    el = [l for l in walk_local(w.node) if isinstance(l, ast.For) and norm(l.iter) == f"{Hw}.edges.items()"]
+    rep.need("R3b", len(el), 1, "loop over H.edges.items()")
+    eid = norm(el[0].target.elts[0])
     ok = [norm(a) for a in c.args[:2]] == [rv, pv]
-    rep.ob("O16.2", "R3b", w, ok, c.func, "species arcs run reactant -> product", node=c)
-    ok = kws.get("stoich_r_map", "").replace(" ", "") == f"{{eid:{rc}}}" and kws.get("stoich_p_map", "").replace(" ", "") == f"{{eid:{pc}}}" \
-        and kws.get("via", "").replace(" ", "") == "{eid}"
-    rep.ob("O16.2", "R3b", w, ok, c, "first arc: per-reaction maps are keyed by the reaction id with the reactant / product coefficient", kws, node=c)
-    # update branch
-    upd = {norm(t): norm(v) for t, v, st in assigned_subscripts(w.node)}
-    ok = upd.get("sr_map[eid]") == rc and upd.get("sp_map[eid]") == pc
-    rep.ob("O16.2", "R3b", w, ok, {k: v for k, v in upd.items() if "map[eid]" in k},
-           "a further reaction on the same species pair adds its own entry to both per-reaction maps (reactant coeff to stoich_r_map, product coeff to stoich_p_map)")
-    via_add = [x for x in walk_local(w.node) if isinstance(x, ast.Call) and norm(x.func) == "via.add"]
-    rep.ob("O16.2", "R3b", w, bool(via_add) and norm(via_add[0].args[0]) == "eid", via_add[0] if via_add else "via.add", "and registers its id in `via`")
+    rep.ob("O16.2", "R3b", w, ok, "G.add_edge(<reactant>, <product>, ...)", "species arcs run reactant -> product", node=c)
+    ok = kws.get("stoich_r_map", "").replace(" ", "") == f"{{{eid}:{rc}}}" and kws.get("stoich_p_map", "").replace(" ", "") == f"{{{eid}:{pc}}}" \
+        and kws.get("via", "").replace(" ", "") == f"{{{eid}}}"
+    rep.ob("O16.2", "R3b", w, ok, alpha(c, w.node), "first arc: per-reaction maps are keyed by the reaction id with the reactant / product coefficient", node=c)
+    # update branch: <m> = data.get('<key>'); ...; <m>[eid] = coeff
     wdefs = local_defs(w.node)
-    for nm, key in (("sr_map", "stoich_r_map"), ("sp_map", "stoich_p_map"), ("via", "via")):
-        srcs = [norm(d.value) for d in wdefs.get(nm, []) if d.kind == "assign"]
-        rep.ob("O16.2", "R3b", w, f"data.get('{key}')" in srcs, f"{nm} <- {srcs}", f"`{nm}` is the arc's own '{key}' entry")
+    datas = [b_["d"] for _, b_ in pfind(f"$d = {GW}[{rv}][{pv}]", w.node)]
+    DATA = datas[0] if datas else "?"
+
+    def local_for(key):
+        return [nm for nm, ds in wdefs.items() for d_ in ds if d_.kind == "assign" and pmatch(f"{DATA}.get('{key}')", d_.value) is not None]
+    upd = {norm(t): norm(v) for t, v, st in assigned_subscripts(w.node)}
+    srm, spm, via = local_for("stoich_r_map"), local_for("stoich_p_map"), local_for("via")
+    ok = bool(srm) and bool(spm) and upd.get(f"{srm[0]}[{eid}]") == rc and upd.get(f"{spm[0]}[{eid}]") == pc
+    rep.ob("O16.2", "R3b", w, ok, "stoich_r_map[eid] = <reactant coeff>; stoich_p_map[eid] = <product coeff>",
+           "a further reaction on the same species pair adds its own entry to both per-reaction maps (reactant coeff to stoich_r_map, product coeff to stoich_p_map)")
+    via_add = [x for x in walk_local(w.node) if via and isinstance(x, ast.Call) and norm(x.func) == f"{via[0]}.add"]
+    rep.ob("O16.2", "R3b", w, bool(via_add) and norm(via_add[0].args[0]) == eid, "via.add(eid)", "and registers its id in `via`")
+    for nm, key in ((srm, "stoich_r_map"), (spm, "stoich_p_map"), (via, "via")):
+        # a missing entry is created *and stored back* on the arc
+        okk = bool(nm) and pall([f"if {nm[0]} is None:\n    {nm[0]} = $$new\n    {DATA}['{key}'] = {nm[0]}"], w.node) is not None
+        rep.ob("O16.2", "R3b", w, okk, f"data.get('{key}')", f"the updated object is the arc's own '{key}' entry (created and stored if missing)")
     # reader
+    G = r.params[0]
     rdefs = local_defs(r.node)
+    gl = [l for l in walk_local(r.node) if isinstance(l, ast.For) and pmatch(f"{G}.edges(data=True)", l.iter) is not None]
+    rep.need("R3b", len(gl), 1, "for u, v, attrs in G.edges(data=True)")
+    u, v, attrs = [norm(e) for e in gl[0].target.elts]
     gets = {}
     for nm, ds in rdefs.items():
         for d in ds:
-            if d.kind == "assign" and isinstance(d.value, ast.Call) and call_name(d.value) == "get" and norm(d.value.func.value) == "attrs":
+            if d.kind == "assign" and isinstance(d.value, ast.Call) and call_name(d.value) == "get" and norm(d.value.func.value) == attrs:
                 try:
                     gets[nm] = const(d.value.args[0])
                 except ValueError:
                     pass
-    rep.extra["species_graph_reader_keys"] = gets
+    inv = {}
+    for nm, k in gets.items():
+        inv.setdefault(k, []).append(nm)
+    rep.extra["species_graph_reader_keys"] = sorted(set(gets.values()))
     ok = set(gets.values()) <= SG_KEYS and {"via", "stoich_r_map", "stoich_p_map"} <= set(gets.values())
-    rep.ob("O16.2", "R3b", r, ok, gets, "the reader consumes keys the writer produces, including `via` and both per-reaction maps")
-    want = {"sr_map": "stoich_r_map", "sp_map": "stoich_p_map", "sr_legacy": "stoich_r", "sp_legacy": "stoich_p"}
-    rep.ob("O16.2", "R3b", r, all(gets.get(k) == v for k, v in want.items()), {k: gets.get(k) for k in want},
-           "reactant-side names read reactant-side keys and product-side names product-side keys")
-    # preference: per-eid map first, legacy only as fallback
-    pm = parent_map(r.node)
-    for var, mp, legacy in (("sr", "sr_map", "sr_legacy"), ("sp", "sp_map", "sp_legacy")):
-        ds = [d for d in rdefs.get(var, []) if d.kind == "assign"]
-        from_map = [d for d in ds if norm(d.value) == f"{mp}.get(eid)"]
-        from_leg = [d for d in ds if norm(d.value) == legacy]
-        ok = bool(from_map) and bool(from_leg) and any(norm(t) == f"{var} is None" and s for t, s in guards_of(pm, from_leg[0].stmt, r.node))
-        rep.ob("O16.2", "R3b", r, ok, [norm(d.stmt)[:50] for d in ds], f"`{var}`: the per-reaction map wins, the aggregated legacy value is only a fallback")
-    apps = {norm(c.func): norm(c.args[0]) for c in walk_local(r.node) if isinstance(c, ast.Call) and call_name(c) == "append" and "entry[" in norm(c.func)}
-    ok = apps.get("entry['reactants'][s_r].append") == "sr" and apps.get("entry['products'][s_p].append") == "sp"
-    rep.ob("O16.2", "SRC", r, ok, apps, "reactant coefficient goes to the arc's source species, product coefficient to its target species")
-    ok = "G.nodes[u]" in norm(origin(rdefs, ast.Name(id="s_r", ctx=ast.Load()))) and "G.nodes[v]" in norm(origin(rdefs, ast.Name(id="s_p", ctx=ast.Load())))
-    rep.ob("O16.2", "SRC", r, ok, "s_r <- u, s_p <- v", "arc source = reactant species, arc target = product species")
-    adds = [c for c in walk_local(r.node) if isinstance(c, ast.Call) and norm(c.func) == "H.add_rxn"]
+    rep.ob("O16.2", "R3b", r, ok, sorted(set(gets.values())), "the reader consumes keys the writer produces, including `via` and both per-reaction maps")
+    adds = [c_ for c_ in walk_local(r.node) if isinstance(c_, ast.Call) and call_name(c_) == "add_rxn"]
     rep.need("SRC", len(adds), 1, "H.add_rxn in species_graph_to_hypergraph")
+    # the grouping: entry = <map>.setdefault(str(eid), {...}); entry['reactants'][s_r].append(sr); entry['products'][s_p].append(sp)
+    pm = parent_map(r.node)
+    b = pall(["$entry = $emap.setdefault(str($eid), $$init)", "$entry['reactants'][$s_r].append($sr)", "$entry['products'][$s_p].append($sp)"], gl[0])
+    rep.ob("O16.2", "SRC", r, b is not None, "entry['reactants'][s_r].append(sr); entry['products'][s_p].append(sp)", "arcs are grouped back by the reaction id in `via`")
+    if b is None:
+        return
+    ok = pmatch(f"{G}.nodes[{u}].get(species_label_attr, str({u}))", origin(rdefs, ast.Name(id=b["s_r"], ctx=ast.Load()))) is not None and \
+        pmatch(f"{G}.nodes[{v}].get(species_label_attr, str({v}))", origin(rdefs, ast.Name(id=b["s_p"], ctx=ast.Load()))) is not None
+    rep.ob("O16.2", "SRC", r, ok, "s_r <- u, s_p <- v", "arc source = reactant species, arc target = product species")
+    # preference: per-eid map first, legacy only as fallback; reactant-side names read reactant-side keys
+    for var, mkey, lkey, side in ((b["sr"], "stoich_r_map", "stoich_r", "reactant"), (b["sp"], "stoich_p_map", "stoich_p", "product")):
+        ds = [d for d in rdefs.get(var, []) if d.kind == "assign"]
+        maps, legs = inv.get(mkey, []), inv.get(lkey, [])
+        from_map = [d for d in ds if maps and norm(d.value) == f"{maps[0]}.get({b['eid']})"]
+        from_leg = [d for d in ds if legs and norm(d.value) == legs[0]]
+        other = [d for d in ds if d not in from_map and d not in from_leg and not is_const(d.value, None) and
+                 pmatch(f"int({var}) if {var} is not None else 1", d.value) is None]
+        ok = bool(from_map) and bool(from_leg) and not other and any(norm(t) == f"{var} is None" and s for t, s in guards_of(pm, from_leg[0].stmt, r.node))
+        rep.ob("O16.2", "R3b", r, ok, f"{side} coefficient <- {mkey}.get(eid), else {lkey}", f"{side} coefficient: the per-reaction map wins, the aggregated legacy value is only a fallback",
+               {"other_sources": [alpha(d.stmt, r.node)[:60] for d in other]})
+    # eids come from `via`
+    el = enclosing_loops(pm, [n for n, _ in pfind("$entry = $emap.setdefault(str($eid), $$init)", gl[0], b)][0], gl[0])
+    ok = False
+    if el and norm(el[0].target) == b["eid"]:
+        srcs = [d_.value for d_ in rdefs.get(norm(el[0].iter), []) if d_.kind == "assign"]
+        vias = inv.get("via", [])
+        ok = bool(vias) and any(pmatch(f"list({vias[0]})", x) is not None for x in srcs)
+    rep.ob("O16.2", "SRC", r, ok, "for eid in list(via)", "every reaction id listed in `via` gets its own entry")
     c = adds[0]
-    ok = [norm(a) for a in c.args[:2]] == ["reactants", "products"] and norm(kwarg(c, "edge_id") or ast.Constant(None)) == "str(eid)"
-    rep.ob("O16.2", "SRC", r, ok, c, "each grouped reaction is re-added under its original id", node=c)
-    grp = [c_ for c_ in walk_local(r.node) if isinstance(c_, ast.Call) and norm(c_.func) == "eid_map.setdefault"]
-    rep.ob("O16.2", "SRC", r, bool(grp) and norm(grp[0].args[0]) == "str(eid)", grp[0] if grp else "setdefault", "arcs are grouped back by the reaction id in `via`")
+    ml = enclosing_loops(pm, c, r.node)
+    ok = False
+    if ml and pmatch(f"{b['emap']}.items()", ml[0].iter) is not None:
+        e2, d2 = [norm(e) for e in ml[0].target.elts]
+        a0, a1 = origin(rdefs, c.args[0]), origin(rdefs, c.args[1])
+        m0 = pmatch("{$s: $vals[0] for $s, $vals in $lst.items()}", a0)
+        m1 = pmatch("{$s: $vals[0] for $s, $vals in $lst.items()}", a1)
+        ok = m0 is not None and m1 is not None and norm(origin(rdefs, ast.Name(id=m0["lst"], ctx=ast.Load()))) == f"{d2}['reactants']" \
+            and norm(origin(rdefs, ast.Name(id=m1["lst"], ctx=ast.Load()))) == f"{d2}['products']" \
+            and pmatch(f"str({e2})", kwarg(c, "edge_id")) is not None
+    rep.ob("O16.2", "SRC", r, ok, alpha(c, r.node), "each grouped reaction is re-added under its original id, reactants from the reactant group and products from the product group", node=c)
 
 
 # ------------------------------------------------------------------ O16.3
@@ -269,6 +340,21 @@ def _cls(sub):
     return " ".join(txt)
 
 
+def _term_shape(fi, t):
+    """`f"{s}" if c == 1 else f"{c}{s}"` with s the loop variable over the side's species and c that species' coefficient"""
+    m = pmatch("f'{$s}' if $c == 1 else f'{$c}{$s}'", t)
+    if m is None:
+        return False
+    tl = enclosing_loops(parent_map(fi.node), t, fi.node)
+    if not tl or norm(tl[0].target) != m["s"]:
+        return False
+    it = pmatch("sorted($$d.keys())", tl[0].iter) or pmatch("sorted($$d)", tl[0].iter)
+    if it is None:
+        return False
+    csrc = norm(origin(local_defs(fi.node), ast.Name(id=m["c"], ctx=ast.Load())))
+    return csrc in (f"int({it['d']}[{m['s']}])", f"{it['d']}[{m['s']}]")
+
+
 def strings(rep):
     pr = rep.f(CV, "hypergraph_to_rxn_strings")
     fmt = rep.f(CV, "hypergraph_to_rxn_strings.<locals>.fmt")
@@ -280,15 +366,24 @@ def strings(rep):
     t = js[0]
     one = [norm(v.value) for v in t.body.values if isinstance(v, ast.FormattedValue)]
     many = [(norm(v.value) if isinstance(v, ast.FormattedValue) else repr(v.value)) for v in t.orelse.values]
-    rep.ob("O16.3", "R3d", fmt, norm(t.test).replace(" ", "") == "c==1" and one == ["s"] and many == ["c", "s"], t,
-           "a term is printed as `<species>` for coefficient 1 and `<coefficient><species>` otherwise", {"one": one, "many": many})
+    okt = _term_shape(fmt, t)
+    rep.ob("O16.3", "R3d", fmt, okt, "f'{s}' if c == 1 else f'{c}{s}'" if okt else alpha(t, fmt.node),
+           "a term is printed as `<species>` for coefficient 1 and `<coefficient><species>` otherwise")
     joins = [c for c in walk_local(fmt.node) if isinstance(c, ast.Call) and call_name(c) == "join" and isinstance(c.func.value, ast.Constant)]
     sep = joins[0].func.value.value if joins else None
     empties = [r.value.value for r in returns_of(fmt.node) if isinstance(r.value, ast.Constant)]
-    line = [n for n in walk_local(pr.node) if isinstance(n, ast.JoinedStr) and [norm(v.value) for v in n.values if isinstance(v, ast.FormattedValue)] == ["left", "right"]]
-    arrow = [v.value for v in line[0].values if isinstance(v, ast.Constant)][0] if line else None
     pdefs = local_defs(pr.node)
-    ok = norm(origin(pdefs, ast.Name(id="left", ctx=ast.Load()))) == "fmt(e.reactants)" and norm(origin(pdefs, ast.Name(id="right", ctx=ast.Load()))) == "fmt(e.products)"
+    line, arrow, ok = [], None, False
+    for n in walk_local(pr.node):
+        if isinstance(n, ast.JoinedStr):
+            fv = [v.value for v in n.values if isinstance(v, ast.FormattedValue)]
+            cs = [v.value for v in n.values if isinstance(v, ast.Constant)]
+            if len(fv) == 2 and len(cs) == 1 and all(isinstance(x, ast.Name) for x in fv):
+                l_, r_ = (origin(pdefs, x) for x in fv)
+                ml, mr = pmatch("fmt($e.reactants)", l_), pmatch("fmt($e.products)", r_)
+                if (ml and mr) or (pmatch("fmt($e.products)", l_) and pmatch("fmt($e.reactants)", r_)):
+                    line, arrow = [n], cs[0]
+                    ok = bool(ml and mr and ml["e"] == mr["e"])
     rep.ob("O16.3", "R3d", pr, ok, "left = fmt(e.reactants); right = fmt(e.products)", "reactants are printed left of the arrow, products right")
     # parser structure
     regs = {}
@@ -318,27 +413,39 @@ def strings(rep):
         ok, bad = None, [str(exc)]
     rep.ob("O16.3", "R3d", ps, ok, regs["term"], "glued terms printed as `<coefficient><species>` are split back into exactly (coefficient, species), "
            "also for multi-digit coefficients; bare species do not match", {"shape": [str(x) for x in shape], "disagreements": bad[:5]})
-    m_groups = [c for c in walk_local(ps.node) if isinstance(c, ast.Call) and norm(c.func) == "m.group"]
     gdefs = local_defs(ps.node)
-    cdef = [norm(d.value) for d in gdefs.get("c", []) if d.kind == "assign"]
-    spdef = [norm(d.value) for d in gdefs.get("sp", []) if d.kind == "assign"]
-    rep.ob("O16.3", "R3d", ps, "int(m.group(1))" in cdef and "m.group(2)" in spdef, f"c<-{cdef} sp<-{spdef}", "group 1 is the coefficient, group 2 the species")
+    mvar = [nm for nm, ds in gdefs.items() for d_ in ds if d_.kind == "assign" and isinstance(d_.value, ast.Call) and dotted(d_.value.func) in ("re.match", "re.fullmatch", "re.search")]
+    okg = False
+    if mvar:
+        mv = mvar[0]
+        cvars = [nm for nm, ds in gdefs.items() for d_ in ds if d_.kind == "assign" and pmatch(f"int({mv}.group(1))", d_.value) is not None]
+        svars = [nm for nm, ds in gdefs.items() for d_ in ds if d_.kind == "assign" and pmatch(f"{mv}.group(2)", d_.value) is not None]
+        # and these are what is accumulated: out[sp] = out.get(sp, 0) + c
+        okg = bool(cvars) and bool(svars) and any(pmatch(f"$o[{svars[0]}] = $o.get({svars[0]}, 0) + {cvars[0]}", st) is not None for t_, v_, st in assigned_subscripts(ps.node))
+    rep.ob("O16.3", "R3d", ps, okg, "c <- int(m.group(1)); sp <- m.group(2)", "group 1 is the coefficient, group 2 the species")
     # separators
     splits = [c for c in walk_local(ps.node) if isinstance(c, ast.Call) and call_name(c) == "split" and c.args and isinstance(c.args[0], ast.Constant)]
     tok = splits[0].args[0].value if splits else None
     rep.ob("O16.3", "R3d", ps, sep is not None and tok is not None and sep.strip() == tok, f"printer {sep!r} / parser split({tok!r})", "terms are joined and split on the same separator")
-    emp_ok = any(norm(n.test).replace(" ", "") in ("side==''orside=='∅'",) for n in walk_local(ps.node) if isinstance(n, ast.If))
+    emp_ok = any(isinstance(n.test, ast.BoolOp) and isinstance(n.test.op, ast.Or) and any(pmatch("$s == '∅'", v_) is not None for v_ in n.test.values)
+                 for n in walk_local(ps.node) if isinstance(n, ast.If))
     rep.ob("O16.3", "R3d", ps, emp_ok and empties == ["∅"], f"printer empties {empties}", "the printer's empty-side symbol is accepted by the parser as the empty side")
     asplit = [c for c in walk_local(ad.node) if isinstance(c, ast.Call) and call_name(c) == "split" and c.args and isinstance(c.args[0], ast.Constant)]
     toks = [c.args[0].value for c in asplit]
     rep.ob("O16.3", "R3d", ad, arrow is not None and arrow.strip() in toks and "|" in toks, f"printer arrow {arrow!r} / parser splits {toks}", "the arrow and the suffix bar are the tokens the parser splits on")
     adefs = local_defs(ad.node)
-    lr = [d for d in adefs.get("left", [])]
-    ok = bool(lr) and lr[0].index == (0,) and norm(origin(adefs, ast.Name(id="reactants", ctx=ast.Load()))) == "RXNSide.from_str(left)" \
-        and norm(origin(adefs, ast.Name(id="products", ctx=ast.Load()))) == "RXNSide.from_str(right)"
-    rep.ob("O16.3", "R3d", ad, ok, "left, right = core.split('>>', 1)", "text left of the arrow becomes the reactants, right of it the products")
     rets = returns_of(ad.node)
-    ok = bool(rets) and norm(rets[-1].value).replace(" ", "") == "self.add_rxn(reactants,products,rule=rule_local)"
+    am = pmatch("self.add_rxn($re, $pr, rule=$rule)", rets[-1].value) if rets else None
+    ok = False
+    if am:
+        l_ = pmatch("RXNSide.from_str($x)", origin(adefs, ast.Name(id=am["re"], ctx=ast.Load())))
+        r_ = pmatch("RXNSide.from_str($x)", origin(adefs, ast.Name(id=am["pr"], ctx=ast.Load())))
+        if l_ and r_:
+            li = [d_.index for d_ in adefs.get(l_["x"], []) if d_.index is not None and isinstance(d_.value, ast.Call) and call_name(d_.value) == "split"]
+            ri = [d_.index for d_ in adefs.get(r_["x"], []) if d_.index is not None and isinstance(d_.value, ast.Call) and call_name(d_.value) == "split"]
+            ok = li == [(0,)] and ri == [(1,)]
+    rep.ob("O16.3", "R3d", ad, ok, "left, right = core.split('>>', 1)", "text left of the arrow becomes the reactants, right of it the products")
+    ok = am is not None
     rep.ob("O16.3", "R3d", ad, ok, rets[-1] if rets else "return", "the parsed sides and rule are added as one reaction")
     # rule suffix
     sfx = [n for n in walk_local(pr.node) if isinstance(n, ast.JoinedStr) and any(isinstance(v, ast.Constant) and v.value == "rule=" for v in n.values)]
@@ -359,12 +466,13 @@ def strings(rep):
     rep.ob("O16.3", "R3d", pr, bool(bar), bar[0] if bar else "suffix", "the suffix is attached behind a bar")
     d = default_of(pr, "include_rule_suffix")
     rep.ob("O16.3", "R3d", pr, d is not None and is_const(d, True), d if d is not None else "include_rule_suffix", "rules are printed by default")
-    rule_src = [d_ for d_ in adefs.get("rule_local", []) if d_.kind == "assign" and norm(d_.value) == "m.group(1)"]
-    rep.ob("O16.3", "R3d", ad, bool(rule_src), rule_src[0].stmt if rule_src else "rule_local", "the captured token becomes the reaction's rule")
+    mvar2 = [nm for nm, ds in adefs.items() for d_ in ds if d_.kind == "assign" and isinstance(d_.value, ast.Call) and dotted(d_.value.func) in ("re.match", "re.search")]
+    rule_src = [d_ for d_ in adefs.get(am["rule"] if am else "", []) if d_.kind == "assign" and mvar2 and norm(d_.value) == f"{mvar2[0]}.group(1)"]
+    rep.ob("O16.3", "R3d", ad, bool(rule_src), "rule <- m.group(1)", "the captured token becomes the reaction's rule")
     # __repr__ of RXNSide is a sibling printer and must agree with fmt
     rp = rep.f(RX, "RXNSide.__repr__")
     js2 = [n for n in walk_local(rp.node) if isinstance(n, ast.IfExp) and isinstance(n.body, ast.JoinedStr)]
-    ok = bool(js2) and norm(js2[0]).replace("self.data[s]", "c") == norm(t)
+    ok = bool(js2) and okt and _term_shape(rp, js2[0])
     rep.ob("O16.3", "R3d", rp, ok, js2[0] if js2 else "__repr__", "RXNSide.__repr__ prints terms exactly like the reaction-string printer (sibling agreement)")
 
 
